@@ -916,10 +916,10 @@ def build_phases(cfg):
     return [
         ('H2', 'numpy', POSITIONS, e01, P('len2 a,b in U11, both styles', 2, ALL, ALL)),
         ('S2', 'numpy', POSITIONS, e2, P('len1 a,b in U11', 1, ALL, ALL)),
-        ('S3', 'numpy', ('top', 'join'), red[3], P('len1 a in U11, b in B2', 1, ALL, SUB_B2)),
-        ('H2x', 'numpy', ('fn', 'join'), e2, P('len2 a in U11, b in B2, a::', 2, ALL, SUB_B2, KG)),
+        ('S3', 'numpy', ('top',), red[3], P('len1 a in U11, b in B2', 1, ALL, SUB_B2)),
+        ('H2x', 'numpy', ('join',), e2, P('len2 a in U11, b in B2, a::', 2, ALL, SUB_B2, KG)),
         ('H3', 'numpy', POSITIONS, e01, P('len3 a in U6, b in B2, both styles', 3, SUB6, SUB_B2)),
-        ('H3x', 'numpy', ('join',), e2, P('len3 a in U6, b in B2, a::', 3, SUB6, SUB_B2, KG)),
+        ('H3x', 'numpy', ('join',), e2, P('len3 a in U6, b in {[1 2 3]}, a::', 3, SUB6, (4,), KG)),
         ('T', 'torch', POSITIONS, e01, P('len2 a in U11, b in U6, both styles', 2, ALL, SUB6)),
         ('T2', 'torch', ('top',), e2, P('len1 a in U6, b in B3', 1, SUB6, SUB_B3)),
     ]
